@@ -583,6 +583,10 @@ def w_attr( ctx ):
     return res
 
 
+def _dotted_all( node ):
+    return [ d for d in ( dotted( n ) for n in ast.walk( node ) if isinstance( n, ( ast.Attribute, ast.Name ))) if d ]
+
+
 @rule( 'D-VALIDATE', props=( 'C05', 'C08' ), floor=8 )
 def d_validate( ctx ):
     """validation dominates the store: type assert + reply_elements before the Logix slice store; the four range guards exist; byte-count assert before Set Attribute Single"""
@@ -887,6 +891,44 @@ def d_validate( ctx ):
         else:
             res.bad( dsrc, comp, 'Set Attribute Single decodes 3 x 4-octet elements from ( offset, width ) %s' % offs,
                      'element k must come from octets k*size .. (k+1)*size: with the element index used as the byte offset an array of 2-, 4- or 8-octet values is stored as garbage although the reply says success' )
+    # ... every refusal of the attribute services is decided ahead of the store: behind it, nothing may refuse any more
+    for s in ostores:
+        sn = ocfg.node_of( s )
+        behind = ocfg.reachable( [ m for m, label in ocfg.succ[sn] if label != 'exc' ], edge_ok=lambda n, m, label: label != 'exc' )
+        late = sorted(( n for n in behind if n.kind == 'stmt' and isinstance( n.stmt, ( ast.Assert, ast.Raise )) and n is not sn ),
+                      key=lambda n: n.stmt.lineno )
+        if late:
+            res.bad( dsrc, late[0].stmt, 'a refusal ( %s ) is reachable behind the Set Attribute Single store' % norm_text( late[0].stmt )[:60],
+                     'a request refused there is answered with a failure status although the Attribute already holds the new values' )
+        else:
+            res.ok( dsrc, s, 'nothing behind the Set Attribute Single store refuses the request' )
+    # ... and the refusals the read arm is under hold for the store too ( existence, availability mask )
+    reads = [ n for n in ocfg.nodes if n.kind == 'stmt' and isinstance( n.stmt, ast.AugAssign )
+              and any( isinstance( c, ast.Call ) and isinstance( c.func, ast.Attribute ) and c.func.attr == 'produce' and not c.args
+                       for c in ast.walk( n.stmt.value ))
+              and any( isinstance( t, ast.If ) and any( a.endswith( 'GA_SNG_RPY' ) for a in _dotted_all( t.test )) and 'SA_SNG_RPY' not in txt( t.test )
+                       for t in dsrc.ancestors( n.stmt )) ]
+    guards = [ n for n in ocfg.nodes if n.kind == 'stmt' and isinstance( n.stmt, ast.Assert )
+               and 'set_attribute_single' not in attrs_in( n.stmt.test ) and 'get_attribute_single' not in attrs_in( n.stmt.test ) ]
+    if len( reads ) != 1:
+        raise AnalysisError( 'Object.request: Get Attribute Single read ( result += <attribute>.produce() under the GA_SNG_RPY test ) found %d times' % len( reads ))
+    over_read = [ g for g in guards if ocfg.must_pass( ocfg.entry, reads[0], [ g ] ) ]
+    if len( over_read ) < 2:
+        res.bad( dsrc, reads[0].stmt, 'Get Attribute Single is served under %d refusal tests' % len( over_read ),
+                 'the Attribute must exist and be available ( mask ) before it is rendered' )
+    for s in ostores:
+        sn = ocfg.node_of( s )
+        def alike( g ):	# the same test written again in the store's own arm ( through a local for the Attribute, say )
+            def key( t ):
+                return ( frozenset( attrs_in( t )) - { 'attribute' },
+                         tuple( type( o ).__name__ for o in ast.walk( t ) if isinstance( o, ( ast.operator, ast.unaryop, ast.cmpop, ast.boolop ))))
+            return [ h for h in guards if h is not g and key( h.stmt.test ) == key( g.stmt.test ) ]
+        missing = [ g for g in over_read if not ocfg.must_pass( ocfg.entry, sn, [ g ] + alike( g )) ]
+        if missing:
+            res.bad( dsrc, missing[0].stmt, 'the refusal test %s guards Get Attribute Single but not the Set Attribute Single store' % norm_text( missing[0].stmt.test )[:70],
+                     'an Attribute withheld from the single-attribute services is overwritten and the write acknowledged' )
+        else:
+            res.ok( dsrc, s, 'the %d refusal tests of Get Attribute Single dominate the Set Attribute Single store too' % len( over_read ))
     return res
 
 
@@ -1204,6 +1246,27 @@ def p_replybit( ctx ):
                 res.bad( src, u.stmt, '%s: raise RequestUnrecognized after the reply bit was set ( %s )' % ( qn, norm_text( hit[0].stmt )), 'an unsupported service is rendered as an ordinary reply and sent in a frame with encapsulation status 0; the client is told "success" at the frame level for a request nobody processed', func=qn )
             else:
                 res.ok( src, u.stmt, '%s: an unrecognised request is refused with its service code untouched' % qn )
+        # a failure status is only ever pre-set on what already is a reply: whatever raises behind it is answered in band with that status,
+        # and the answer is recognised as a reply ( by the peer, and by the producer here ) by its reply bit alone
+        for n in sorted(( n for n in cfg.nodes if n.kind == 'stmt' and isinstance( n.stmt, ast.Assign ) and dotted( n.stmt.targets[0] ) == art + '.status' ),
+                        key=lambda n: n.stmt.lineno ):
+            vals = _status_values( n.stmt.value, src, n.stmt )
+            if isinstance( vals, frozenset ) and vals <= set( success ):
+                continue
+            if cfg.must_pass( cfg.entry, n, bits ):
+                res.ok( src, n.stmt, '%s: the failure status is pre-set on a reply ( reply bit already set )' % qn, nontrivial=False )
+                continue
+            # ... or ahead of the recognition of the request: then nothing but that recognition ( tests, raise RequestUnrecognized - which keeps the
+            # request's service code on purpose, see below - and the removal of a stale extended status ) lies between it and the reply bit
+            between = [ m for m in cfg.reachable( n, avoid=set( bits ), edge_ok=lambda a, b, label: label != 'exc' and not ( a.kind == 'stmt' and isinstance( a.stmt, ast.Raise )))
+                        if m is not n and m.kind == 'stmt' and m.stmt is not None
+                        and not isinstance( m.stmt, ( ast.Pass, ast.Raise ))
+                        and not ( isinstance( m.stmt, ast.Expr ) and isinstance( m.stmt.value, ast.Call ) and dotted( m.stmt.value.func ) == art + '.pop' ) ]
+            if not between and bits:
+                res.ok( src, n.stmt, '%s: the failure status pre-set ahead of the recognition of the request: nothing else happens before the reply bit' % qn, nontrivial=False )
+            else:
+                res.bad( src, n.stmt, '%s: a failure status is pre-set ( %s ) on a path that has not set the reply bit yet' % ( qn, norm_text( n.stmt )[:50] ),
+                         'a request refused behind it is answered with its own request service code: the peer cannot pair the failure with its request', func=qn )
         # success assignment implies exactly one reply bit
         succ = [ n for n in cfg.nodes if n.kind == 'stmt' and isinstance( n.stmt, ast.Assign ) and dotted( n.stmt.targets[0] ) == art + '.status'
                  and isinstance( _status_values( n.stmt.value, src, n.stmt ), frozenset ) and _status_values( n.stmt.value, src, n.stmt ) & set( success ) ]
@@ -3521,6 +3584,54 @@ def s_lone( ctx ):
             else:
                 res.bad( src, strips[0], '%s: the error reply is rendered without extended status whatever the service' % qn,
                          'D2 00 08 00 parses as a failed Unconnected Send: the client raises on a refused lone Read Tag Fragmented and yields nothing for the operations behind it, where the bundled run reports status 8 for that one', func=qn )
+    return res
+
+
+@rule( 'S-STANDIN', props=( 'C06', 'C07' ), floor=2 )
+def s_standin( ctx ):
+    """the stand-in of a request that could not be parsed carries the service code of THAT request: its first octet, less the reply bit - decided by value on a sample"""
+    res = Result( 'S-STANDIN' )
+    src = ctx.src( DEVICE )
+    n = 0
+    for qn in ( 'Connection_Manager.request', 'state_multiple_service.terminate.closure' ):
+        f_ = src.get( qn )
+        for h_ in [ h_ for h_ in ast.walk( f_ ) if isinstance( h_, ast.ExceptHandler ) ]:
+            ctors = [ c_ for c_ in h_.body if isinstance( c_, ast.Assign ) and isinstance( c_.targets[0], ast.Name ) and isinstance( c_.value, ast.Call )
+                      and any( k_.arg == 'input' for k_ in c_.value.keywords ) ]
+            for ctor in ctors:
+                X = ctor.targets[0].id
+                if not any( k_.arg == 'path' for k_ in ctor.value.keywords ):	# ( the artifact handed to the parser for another try: not a stand-in yet )
+                    continue
+                sets = [ a_ for b_ in h_.body for a_ in ast.walk( b_ ) if isinstance( a_, ast.Assign ) and dotted( a_.targets[0] ) == X + '.service' and a_.lineno > ctor.lineno ]
+                if not sets:
+                    res.bad( src, ctor, '%s: the stand-in of an unparsable request is given no service code' % qn,
+                             'the failure reply carries service 0x80: the peer cannot pair it with its request', func=qn )
+                    n += 1
+                    continue
+                for a_ in sets:
+                    n += 1
+                    got = []
+                    for octets, other in (( b'\x4c\x02\x20\x02', 0x52 ), ( b'\xd3\x01', 0x0A )):
+                        env = { 'bytearray': bytearray, 'bytes': bytes, 'ord': ord, 'int': int, 'len': len, X: { 'input': octets, 'service': other, 'path': { 'segment': [] }}}
+                        given = [ dotted( k_.value ) for k_ in ctor.value.keywords if k_.arg == 'input' ]
+                        if given[0]:	# ( the expression the stand-in's own octets were taken from names the same octets )
+                            env[given[0]] = octets
+                        for d_ in sorted( names_in( a_.value )):
+                            if d_ not in env:
+                                env[d_] = { 'service': other, 'input': bytes( [ other ] ), 'request': { 'service': other, 'input': bytes( [ other ] ) }}
+                        try:
+                            got.append( fold( a_.value, env ))
+                        except Raises as exc:
+                            got.append( 'raises %s' % exc )
+                        except NoFold as exc:
+                            raise AnalysisError( 'S-STANDIN: %s: service of the stand-in outside the modelled subset: %s ( %s )' % ( qn, norm_text( a_.value ), str( exc )[:60] ))
+                    if got == [ 0x4C, 0x53 ]:
+                        res.ok( src, a_, '%s: the stand-in takes its service code from the first octet of the request it stands for, less the reply bit ( 4C.. -> 0x4C, D3.. -> 0x53 )' % qn )
+                    else:
+                        res.bad( src, a_, '%s: the stand-ins of requests 4C 02 20 02 and D3 01 are given service %s' % ( qn, ', '.join( '0x%02X' % g if isinstance( g, int ) else str( g ) for g in got )),
+                                 'the failure is answered under another service code than the request\'s: the peer pairs replies with requests by it', func=qn )
+    if n < 2:
+        raise AnalysisError( 'S-STANDIN: expected the stand-ins of the lone request and of the bundle member, found %d' % n )
     return res
 
 
